@@ -75,6 +75,8 @@ def plan(desc, config, warm, thorough):
     * process-pool runs of workflows cost ~1 s each: quick runs them for the programs with one node and the named ones,
       thorough for every program with n<=2; the n=3 programs (thorough) run under debug-rich only"""
     wname = config.split("-")[0]
+    if not warm and not config.endswith("-rich"):
+        return None      # "checksum not yet computed when pickled" is explored with the rich configurations only
     if desc["kind"] == "shell" and not thorough and wname != "debug" and not desc.get("pref", True):
         return None      # quick: every value under debug, one set value per class under cf / slurm
     if desc["kind"] != "wf":
@@ -422,11 +424,15 @@ def run(ctx):
     descs = task_descs(ctx.thorough)
     configs = H.config_names(ctx.thorough)
     warm = [True, False] if ctx.thorough else [True]
-    ctx.rule = ("every (task, submitter configuration" + (", checksum computed before pickling or not" if ctx.thorough else "")
-                + ") with tasks = C22(a) single-field shell definitions x all values, all C03 workflow programs with n<="
-                + ("3" if ctx.thorough else "2") + " nodes + named/failing programs, python tasks; configurations = "
-                + ", ".join(configs) + "; each job cloudpickled, loaded and run in a fresh interpreter with another hash seed; "
-                "non-trivial = >=1 non-default submitter/worker field (everything except debug-plain)")
+    ctx.rule = ("every (task, submitter configuration" + (", checksum computed before pickling or (rich configurations) not" if ctx.thorough else "")
+                + ") with tasks = C22(a) single-field shell definitions x all values"
+                + ("" if ctx.thorough else " (under cf/slurm: one set value per definition)")
+                + ", all C03 workflow programs with n<=" + ("3" if ctx.thorough else "2") + " nodes + 26 named/failing programs, "
+                "6 python tasks; configurations = " + ", ".join(configs) + "; each job cloudpickled, loaded in a fresh interpreter "
+                "with another hash seed and run there (workflows: never under slurm; under cf "
+                + ("for n<=2; n=3 programs run under debug-rich only" if ctx.thorough else "for one-node and named programs")
+                + "; otherwise identity and fields only); non-trivial = >=1 non-default submitter/worker field (everything "
+                "except debug-plain)")
     ctx.assumptions += [
         "workflows under the slurm worker are checked for identity and fields only (running them needs a cluster)",
         "shell commands are answered by the recorder seam (pydra.environments.base.execute) in parent and child; 'vtfail' exits 3",
